@@ -301,3 +301,110 @@ pub fn gen_c07(g: &mut Gen, tier: &str) {
         }
     }
 }
+
+fn set_value(g: &mut Gen, f: i128) -> i128 {
+    let maxv: i128 = match f { 0 => 5_879_611, 1 => 12, 2 => 31, 3 => 366, 4 => 23, 5 | 6 => 59, 7 => 999, 8 => 999_999, _ => 999_999_999 };
+    match g.rng.next() % 8 {
+        0 => 0, 1 => 1, 2 => maxv, 3 => maxv + 1, 4 => maxv - 1, 5 => if f == 0 { *g.rng.pick(&[i32::MAX as i128, i32::MIN as i128, -5_879_611, -5_879_612]) } else { U32M },
+        6 => if f == 0 { g.rng.range(-5_879_612, 5_879_612) } else { g.rng.range(0, maxv) },
+        _ => if f == 0 { g.rng.range(-3000, 3000) } else if f == 2 { g.rng.range(27, 32) } else { g.rng.range(0, maxv + 2) },
+    }
+}
+/// values whose local date differs from the UTC date, month/year ends, leap days, range ends
+fn edgy_dt(g: &mut Gen) -> (i128, i128, i128) {
+    loop {
+        let d = if g.rng.chance(1, 2) { special_date_day(g) } else { day_pool(g) };
+        let (n, o) = match g.rng.next() % 5 {
+            0 => (23 * 3600 * NPS + 1800 * NPS + g.rng.range(0, 999_999_999), 3600),
+            1 => (900 * NPS + g.rng.range(0, 999_999_999), -1800),
+            2 => (nanos_pool(g), off_pool(g)),
+            3 => (NPD - 1, *g.rng.pick(&[1i128, 86_399, -86_399, 0])),
+            _ => (nanos_pool(g), 0),
+        };
+        let local = d * NPD + n + o * NPS;
+        if local >= DAY_MIN as i128 * NPD && local < (DAY_MAX as i128 + 1) * NPD { return (d, n, o); }
+    }
+}
+
+pub fn gen_c09(g: &mut Gen, tier: &str) {
+    let n = if tier == "thorough" { 120_000 } else { 5_000 };
+    for k in 0..n {
+        let v = edgy_dt(g);
+        let f = (g.rng.next() % 10) as i128;
+        let x = if f == 0 && g.rng.chance(1, 3) { let y = g.rng.range(-30, 30); if y == 0 { 1 } else { y } } else { set_value(g, f) };
+        g.push(true, Input::new("dt_set", vec![f, v.0, v.1, v.2, x]));
+        if k % 2 == 0 { { let __i = Input::new("dt_clear", vec![(g.rng.next() % 9) as i128, v.0, v.1, v.2]); g.push(true, __i); } }
+        if k % 3 == 0 {
+            let tf = 4 + (g.rng.next() % 6) as i128;
+            let tx = set_value(g, tf);
+            g.push(true, Input::new("time_set", vec![tf, v.1, v.2, tx]));
+            { let __i = Input::new("time_clear", vec![3 + (g.rng.next() % 6) as i128, v.1, v.2]); g.push(true, __i); }
+        }
+        if k % 3 == 1 {
+            let df = (g.rng.next() % 3) as i128;
+            let dx = set_value(g, df);
+            g.push(true, Input::new("date_set", vec![df, v.0, dx]));
+            { let __i = Input::new("date_clear", vec![(g.rng.next() % 3) as i128, v.0]); g.push(true, __i); }
+        }
+    }
+    // range ends: local edits that fall off the representable range
+    for (d, nn, o) in [(DAY_MAX as i128, 23 * 3600 * NPS, -3600i128), (DAY_MIN as i128, 0, 3600), (DAY_MAX as i128, NPD - 1, 0), (DAY_MIN as i128, 0, 0), (DAY_MAX as i128, 0, -86_399), (DAY_MIN as i128 + 1, 0, 86_399)] {
+        for f in 0..10i128 { for x in [0i128, 1, 12, 23, 28, 59, 999] { g.push(true, Input::new("dt_set", vec![f, d, nn, o, x])); } }
+        for w in 0..9i128 { g.push(true, Input::new("dt_clear", vec![w, d, nn, o])); }
+    }
+}
+
+pub fn gen_c10(g: &mut Gen, tier: &str) {
+    let n = if tier == "thorough" { 120_000 } else { 5_000 };
+    for s in [-86_401i128, -86_400, -86_399, -86_398, -3_601, -3_600, -3_599, -60, -59, -1, 0, 1, 59, 60, 3_599, 3_600, 86_398, 86_399, 86_400, 86_401, i32::MIN as i128, i32::MAX as i128] {
+        g.push(true, Input::new("offset_from_seconds", vec![s]));
+    }
+    for h in [-25i128, -24, -23, -12, -1, 0, 1, 12, 23, 24, 25, i32::MIN as i128, i32::MAX as i128] {
+        for m in [0i128, 1, 30, 59, 60, U32M] { for s in [0i128, 1, 59, 60, U32M] { g.push(true, Input::new("offset_from_hms", vec![h, m, s])); } }
+    }
+    if tier == "thorough" {
+        for s in -86_399..=86_399i128 { g.push(true, Input::new("offset_from_seconds", vec![s])); }
+    }
+    for k in 0..n {
+        let v = edgy_dt(g);
+        let o2 = off_pool(g);
+        g.push(o2 != v.2, Input::new(if k % 2 == 0 { "dt_set_offset" } else { "dt_as_offset" }, vec![v.0, v.1, v.2, o2]));
+        g.push(v.2 != 0, Input::new("dt_get", vec![v.0, v.1, v.2]));
+        if k % 3 == 0 {
+            g.push(true, Input::new(if k % 2 == 0 { "time_set_offset" } else { "time_as_offset" }, vec![v.1, v.2, o2]));
+            { let __i = Input::new("offset_from_seconds", vec![g.rng.range(-90_000, 90_000)]); g.push(true, __i); }
+            { let __i = Input::new("offset_from_hms", vec![g.rng.range(-25, 25), g.rng.range(0, 61), g.rng.range(0, 61)]); g.push(true, __i); }
+        }
+    }
+}
+
+pub fn gen_c15(g: &mut Gen, tier: &str) {
+    let n = if tier == "thorough" { 120_000 } else { 4_000 };
+    crate::c01::generate_triples(g, n);
+    let bh: [i128; 9] = [0, 1, 22, 23, 24, 59, 60, (1 << 31), U32M];
+    for h in bh { for m in [0i128, 59, 60, U32M] { for s in [0i128, 59, 60, U32M] {
+        g.push(true, Input::new("dt_from_hms", vec![h, m, s]));
+        g.push(true, Input::new("time_ctor", vec![0, h, m, s]));
+        g.push(true, Input::new("dt_from_ymdhms", vec![2024, 2, 29, h, m, s]));
+    } } }
+    for _ in 0..n {
+        let y = if g.rng.chance(1, 4) { g.rng.range(-5_879_612, 5_879_612) } else { g.rng.range(-3000, 3000) };
+        let (mo, d) = (g.rng.range(0, 13), g.rng.range(0, 32));
+        let (h, mi, s) = (g.rng.range(0, 25), g.rng.range(0, 61), g.rng.range(0, 61));
+        g.push(true, Input::new("dt_from_ymdhms", vec![y, mo, d, h, mi, s]));
+        { let __i = Input::new("time_ctor", vec![1, g.rng.range(86_000, 87_000)]); g.push(true, __i); }
+        { let __i = Input::new("time_ctor", vec![2, g.rng.range(NPD - 1000, NPD + 1000)]); g.push(true, __i); }
+        { let __i = Input::new("offset_from_seconds", vec![g.rng.range(-87_000, 87_000)]); g.push(true, __i); }
+        { let __i = Input::new("offset_from_hms", vec![g.rng.range(-25, 25), g.rng.range(0, 61), g.rng.range(0, 61)]); g.push(true, __i); }
+        let v = edgy_dt(g);
+        let f = (g.rng.next() % 10) as i128;
+        { let __i = Input::new("dt_set", vec![f, v.0, v.1, v.2, set_value(g, f)]); g.push(true, __i); }
+        let tf = 4 + (g.rng.next() % 6) as i128;
+        { let __i = Input::new("time_set", vec![tf, v.1, v.2, set_value(g, tf)]); g.push(true, __i); }
+        let df = (g.rng.next() % 4) as i128;
+        { let __i = Input::new("date_set", vec![df, v.0, set_value(g, df)]); g.push(true, __i); }
+    }
+    for (d, nn, o) in [(DAY_MAX as i128, 23 * 3600 * NPS, -3600i128), (DAY_MIN as i128, 0, 3600)] {
+        for f in 0..10i128 { for x in [0i128, 1, 12, 23, 28, 59, 999] { g.push(true, Input::new("dt_set", vec![f, d, nn, o, x])); } }
+    }
+}
